@@ -22,8 +22,8 @@ python3 - "$root/out/$prop" <<'PY'
 import json,glob,sys,collections
 c=collections.Counter()
 for f in glob.glob(sys.argv[1]+'/cex-*.json'):
-    d=json.load(open(f)); c[(d.get('harness'),d.get('assertion'))]+=1
-for (h,a),n in sorted(c.items()): print(f"  failing: {h} {a} x{n}")
+    d=json.load(open(f)); c[(d.get('kind'),d.get('harness'),d.get('assertion'))]+=1
+for (k,h,a),n in sorted(c.items(), key=str): print(f"  {'known-finding' if k=='known' else 'failing'}: {h} {a} x{n}")
 PY
 echo "exit=$code"
 exit $code
